@@ -160,6 +160,9 @@ pub fn corpus(marker: &str) -> Vec<Entry> {
     v.push(Entry { name: format!("{marker}X.sol"), kind: Kind::File(extra.as_bytes().to_vec()), class: "eligible" });
     let extra2 = "pragma solidity 0.7.6 ;\nusing SafeMath for uint256 ;\ncontract Y {\nfunction f ( uint256 a ) public returns ( uint256 ) {\nrequire ( a > 0 , \"a string that is at least thirty-two bytes long\" ) ;\nreturn a . add ( 1 ) ;\n}\n}\n";
     v.push(Entry { name: format!("{marker}Y.sol"), kind: Kind::File(extra2.as_bytes().to_vec()), class: "eligible" });
+    // a nested directory: the selection must hold at every depth
+    let nested: Vec<Entry> = tree::POOL.iter().enumerate().take(3).map(|(i, p)| Entry { name: format!("{marker}N{i}.sol"), kind: Kind::File(p.as_bytes().to_vec()), class: "eligible" }).collect();
+    v.push(Entry { name: "Nested".into(), kind: Kind::Dir(vec![Entry { name: "Deeper".into(), kind: Kind::Dir(nested), class: "directory" }, Entry { name: format!("{marker}M.sol"), kind: Kind::File(tree::POOL[1].as_bytes().to_vec()), class: "eligible" }]), class: "directory" });
     v
 }
 
@@ -231,7 +234,7 @@ fn run_bin_case(env: &Env, c: &BinCase, st: &mut Stats) -> Vec<Violation> {
     let sc = Scratch::new("c14");
     let w = sc.path.join("w");
     std::fs::create_dir_all(&w).unwrap();
-    let dirs = [("contracts", "DefaultDir"), ("fromtoml", "TomlDir"), ("fromarg", "ArgDir")];
+    let dirs = [("contracts", "DefaultDir"), ("FromToml", "TomlDir"), ("FromArg", "ArgDir")];
     for (d, marker) in dirs {
         if d == "contracts" && !c.have_contracts {
             continue;
@@ -243,12 +246,12 @@ fn run_bin_case(env: &Env, c: &BinCase, st: &mut Stats) -> Vec<Violation> {
     let fire = firing_in(&corpus("M"));
     let toml_file = w.join("cfg.toml");
     if c.use_toml {
-        std::fs::write(&toml_file, toml_text("./fromtoml", &c.selected, &c.unknown)).unwrap();
+        std::fs::write(&toml_file, toml_text("./FromToml", &c.selected, &c.unknown)).unwrap();
     }
     let mut args: Vec<&str> = Vec::new();
     if c.use_path {
         args.push("--path");
-        args.push("./fromarg");
+        args.push("./FromArg");
     }
     if c.use_toml {
         args.push("--toml");
